@@ -18,7 +18,7 @@ from .core import Unsupported
 from .mirfront import Mir, MirFn, _split_args
 
 INT_BITS = {"u8": 8, "u16": 16, "u32": 32, "u64": 64, "usize": 64, "u128": 128, "i8": 8, "i16": 16, "i32": 32, "i64": 64, "isize": 64, "i128": 128}
-VARIANTS = {"None": 0, "Some": 1, "Ok": 0, "Err": 1, "Continue": 0, "Break": 1}
+VARIANTS = {"None": 0, "Some": 1, "Ok": 0, "Err": 1, "Continue": 0, "Break": 1, "Less": -1, "Equal": 0, "Greater": 1}
 
 
 class Panic(Exception):
@@ -392,6 +392,35 @@ class Machine:
     def std(self, callee: str, a: list[Any]):
         c = callee
         deref = lambda r: r.get() if isinstance(r, Ref) else r      # noqa: E731
+        if re.search(r"as Deref>::deref$|as AsRef<.*>>::as_ref$|as Borrow<.*>>::borrow$", c):
+            return a[0]
+        m = re.search(r"^<(.+) as Partial(Ord|Eq)>::(partial_cmp|eq|ne|gt|ge|lt|le)$", c)
+        if m:
+            x, y = deref(a[0]), deref(a[1])
+            if m.group(1).startswith("(") or m.group(1) in INT_BITS or m.group(1) in ("&str", "str", "char", "bool", "f64"):
+                key = lambda v: [key(deref(e)) for e in v] if isinstance(v, list) else self._num(v)      # noqa: E731
+                kx, ky = key(x), key(y)
+                order = "Less" if kx < ky else "Greater" if kx > ky else "Equal"
+            else:
+                # a type of the crate: its own partial_cmp / eq decides
+                ty = re.sub(r"<.*", "", m.group(1)).split("::")[-1]
+                want = "eq" if m.group(3) in ("eq", "ne") else "partial_cmp"
+                cands = [f for f in self._by_tail.get(want, []) if f"&{ty}" in f.sig]
+                if len(cands) != 1:
+                    raise Unsupported(f"{want} of {ty} not found in the crate")
+                r = self.run(cands[0], [a[0], a[1]])
+                if want == "eq":
+                    return bool(r) == (m.group(3) == "eq")
+                if r.variant != "Some":
+                    raise Unsupported("partial_cmp answers None")
+                order = r.payload[0].variant
+            if m.group(3) == "partial_cmp":
+                return Enum("Some", [Enum(order)])
+            return {"eq": order == "Equal", "ne": order != "Equal", "gt": order == "Greater", "ge": order != "Less", "lt": order == "Less", "le": order != "Greater"}[m.group(3)]
+        m = re.search(r"^<(.+) as Ord>::cmp$", c)
+        if m:
+            x, y = self._num(deref(a[0])), self._num(deref(a[1]))
+            return Enum("Less" if x < y else "Greater" if x > y else "Equal")
         if c.endswith("::char_indices"):
             return CharIter(a[0])
         if "CharIndices" in c and c.endswith("::next"):
@@ -559,6 +588,11 @@ class Machine:
                 raw_op = re.match(r"^switchInt\((.*?)\) -> ", t).group(1)
                 v = self._num(self.operand(raw_op, L))
                 tg = b.switch[1]
+                if str(v) not in tg and isinstance(v, int) and v < 0:
+                    for bits in (8, 16, 32, 64, 128):
+                        if str(v & ((1 << bits) - 1)) in tg:
+                            v = v & ((1 << bits) - 1)
+                            break
                 bb = tg[str(v)] if str(v) in tg else tg["otherwise"]
                 continue
             m = re.match(r"^drop\(.*\) -> \[return: bb(\d+)", t)
